@@ -46,11 +46,23 @@ var amd64VecALU3 = map[string]bool{ // (a, b, dst) or with $imm first, or merge-
 	"VGF2P8AFFINEQB": true, "VGF2P8AFFINEINVQB": true, "VGF2P8MULB": true, "VPCLMULQDQ": true, "VALIGND": true, "VALIGNQ": true, "VPALIGNR": true,
 	"VMOVDQA64": true, "VMOVDQA32": true, "VMOVAPD": true, "VMOVAPS": true, "VMOVDQA": true,
 	"VPBROADCASTD": true, "VPBROADCASTQ": true, "VPBROADCASTB": true, "VBROADCASTI32X2": true, "VBROADCASTI32X4": true, "VBROADCASTI64X2": true,
+	"PSHUFD": true, "PSHUFL": true, "PSHUFHW": true, "PSHUFLW": true,
 	"VPTERNLOGD": true, "VPSHUFD": true, "VSHUFI32X4": true, "VSHUFI64X2": true, "VINSERTI32X4": true, "VEXTRACTI32X4": true,
 }
 
+// legacy SSE: unaligned 16-byte moves, and two-operand ALU instructions (dst = dst op src)
+var amd64SSEMove = map[string]bool{"MOVOU": true, "MOVUPS": true, "MOVUPD": true}
+var amd64SSE2op = map[string]bool{
+	"PAND": true, "POR": true, "PANDN": true, "PADDL": true, "PADDQ": true, "PADDB": true, "PADDW": true, "PSUBL": true, "PSUBQ": true, "PSUBB": true, "PSUBW": true,
+	"PSLLL": true, "PSRLL": true, "PSLLQ": true, "PSRLQ": true, "PSLLW": true, "PSRLW": true, "PSRAL": true, "PSRAW": true,
+	"PUNPCKLLQ": true, "PUNPCKHLQ": true, "PUNPCKLQDQ": true, "PUNPCKHQDQ": true, "PUNPCKLBW": true, "PUNPCKHBW": true, "PUNPCKLWL": true, "PUNPCKHWL": true,
+	"PCMPEQB": true, "PCMPEQL": true, "PCMPEQW": true, "PCMPGTB": true, "PCMPGTL": true, "PCMPGTW": true, "PMINUB": true, "PMAXUB": true,
+	"XORPS": true, "XORPD": true, "ANDPS": true, "ANDPD": true, "ORPS": true, "ORPD": true, "ANDNPS": true, "ANDNPD": true,
+	"PCLMULQDQ": true, "PALIGNR": true, "PBLENDW": true, "PSHUFB": true,
+}
+
 var amd64AlignedOnly = map[string]bool{"VMOVDQA64": true, "VMOVDQA32": true, "VMOVAPD": true, "VMOVAPS": true, "VMOVDQA": true, "MOVAPS": true, "MOVAPD": true, "MOVDQA": true, "MOVO": true}
-var amd64RegOnlyTbl = map[string]bool{"VGF2P8AFFINEQB": true, "VGF2P8AFFINEINVQB": true, "VPSHUFB": true, "VPERMQ": true, "VPERMD": true, "VTBL": true, "TBX": true, "TBL": true}
+var amd64RegOnlyTbl = map[string]bool{"PSHUFB": true, "VGF2P8AFFINEQB": true, "VGF2P8AFFINEINVQB": true, "VPSHUFB": true, "VPERMQ": true, "VPERMD": true, "VTBL": true, "TBX": true, "TBL": true}
 
 func vecMemWidth(op string, dstWidth int) int {
 	switch op {
@@ -128,7 +140,7 @@ func effectAMD64(in *Instr) (*Effect, error) {
 		return e, nil
 	}
 	// ---- vector moves with memory
-	if strings.HasPrefix(op, "VMOVDQU") || (amd64AlignedOnly[op] && len(a) >= 2 && (isMemOp(a[0]) || isMemOp(a[len(a)-1]))) {
+	if strings.HasPrefix(op, "VMOVDQU") || amd64SSEMove[op] || (amd64AlignedOnly[op] && len(a) >= 2 && (isMemOp(a[0]) || isMemOp(a[len(a)-1]))) {
 		e.IsVec = true
 		lane := 4
 		switch {
@@ -176,7 +188,7 @@ func effectAMD64(in *Instr) (*Effect, error) {
 		}
 		return e, nil
 	}
-	if amd64VecALU3[op] || op == "PSLLO" || op == "PSRLO" || op == "PXOR" {
+	if amd64VecALU3[op] || amd64SSE2op[op] || op == "PSLLO" || op == "PSRLO" || op == "PXOR" {
 		e.IsVec = true
 		e.RegOnlyTbl = amd64RegOnlyTbl[op]
 		if len(a) < 2 {
@@ -212,10 +224,10 @@ func effectAMD64(in *Instr) (*Effect, error) {
 				return bad()
 			}
 		}
-		if merge || op == "PSLLO" || op == "PSRLO" || op == "PXOR" || op == "VPTERNLOGD" {
+		if merge || amd64SSE2op[op] || op == "PSLLO" || op == "PSRLO" || op == "PXOR" || op == "VPTERNLOGD" {
 			e.Reads = append(e.Reads, dst.Reg)
 		}
-		if (op == "VPXORD" || op == "VPXORQ" || op == "VPXOR" || op == "PXOR" || op == "VPSUBD") && allSame && nsrc >= 1 && !merge {
+		if (op == "VPXORD" || op == "VPXORQ" || op == "VPXOR" || op == "PXOR" || op == "VPSUBD" || op == "XORPS" || op == "XORPD" || op == "PSUBL" || op == "PSUBQ") && allSame && nsrc >= 1 && !merge {
 			e.ZeroIdiom = true
 		}
 		return e, nil
